@@ -51,6 +51,15 @@ prop('C15', 'model_checking',
      'interleaving at the granularity of API calls (obtain / sign / verify); 2-3 entities; real 2048-bit RSA keys',
      'TLA+ interleaving model + TLC + behaviour replay (threads) + TLC trace validation', 'section 5 C15')
 
+prop('C02', 'model_checking',
+     'SPSigReq.tla models the two-stage force-and-retry procedure of Entity._parse_response with every tool invocation; '
+     'TLC checks it against the documented acceptance table on all 144 scenarios (8 option settings x response/assertion '
+     'signature absent/valid/invalid x plain/encrypted) and that acceptance implies every recorded verification said OK; '
+     'every scenario is rendered with real signatures / encryption (invalid = broken digest, altered SignatureValue or '
+     'foreign key; five RSA-SHA algorithms) and replayed into Saml2Client.parse_authn_request_response; the recorded '
+     'tool-call traces are validated by the TLA+ contract monitor SPSigReqTrace', TOOL_NOTE,
+     'TLA+ scenario spec + TLC + replay + TLC trace validation', 'section 5 C02')
+
 
 def main():
     props = [json.loads(l) for l in open(os.path.join(VERIF, 'properties.jsonl'))]
